@@ -752,60 +752,10 @@ func main() {
 	r := hx.Rand()
 
 	var cases []Case
+	tieVariants()
 	if *hx.Replay != "" {
 		cases = replayCases(*hx.Replay)
 	} else {
-		// finding switches: replay the witnesses first
-		w := runAlone(Case{Fn: "poll_oneoff", Args: []uint64{0, 1024, 1 << 28, 2048}, State: "bare", Img: "zero", Engine: "interpreter", Tag: "witness"})
-		pollFixed = w.res != nil && w.res.Err == ""
-		v := "asis"
-		if pollFixed {
-			v = "fixed"
-		}
-		rep.Note("finding switch F15: poll_oneoff variant tied to the code = %s", v)
-		if a := orc.Askf("c15 variant %s", v); a != "ok" {
-			hx.Fatal("oracle variant: %s", a)
-		}
-		if l, err := net.Listen("tcp", "127.0.0.1:0"); err == nil {
-			l.Close()
-			sockStateOK = true
-		} else {
-			rep.Count("state-sock:skipped-no-loopback")
-			rep.Note("descriptor-table state `sock` skipped: cannot bind a loopback port (%v)", err)
-		}
-		{
-			// finding switch F62: the first iovec buffer covers the second entry, the file's bytes are an iovec
-			w := runAlone(Case{Fn: "fd_read", Args: []uint64{6, offIovC, 2, 16576}, State: "alias", Img: "struct", Engine: "interpreter", Tag: "witness"})
-			v3 := "fixed"
-			if w.res != nil {
-				for _, d := range w.res.Diff {
-					if d.Off == 4096 {
-						v3 = "asis"
-					}
-				}
-			}
-			rep.Note("finding switch F62: readv variant tied to the code = %s", v3)
-			if a := orc.Askf("c15 variant3 %s", v3); a != "ok" {
-				hx.Fatal("oracle variant3: %s", a)
-			}
-		}
-		if sockStateOK {
-			// finding switch F61: sock_recv with RI_RECV_PEEK and ri_data_len = 0
-			w := runAlone(Case{Fn: "sock_recv", Args: []uint64{4, 0, 0, 1, 0xffc0, 0x4140}, State: "sock", Img: "struct", Engine: "interpreter", Tag: "witness"})
-			v2 := "asis"
-			if w.res != nil && w.res.Err == "" {
-				v2 = "fixed"
-				for _, d := range w.res.Diff {
-					if d.Off == 256 {
-						v2 = "asis"
-					}
-				}
-			}
-			rep.Note("finding switch F61: sock_recv variant tied to the code = %s", v2)
-			if a := orc.Askf("c15 variant2 %s", v2); a != "ok" {
-				hx.Fatal("oracle variant2: %s", a)
-			}
-		}
 		for _, f := range specs {
 			if *onlyFn != "" && f.name != *onlyFn {
 				continue
@@ -849,6 +799,62 @@ func main() {
 	rep.Write(orc)
 }
 
+// tieVariants replays the witness of every finding switch (F15 poll_oneoff, F62 readv, F61 sock_recv PEEK) and tells
+// the oracle which variant of the model is tied to the code of this tree; it also probes the loopback interface.
+func tieVariants() {
+	// finding switches: replay the witnesses first
+	w := runAlone(Case{Fn: "poll_oneoff", Args: []uint64{0, 1024, 1 << 28, 2048}, State: "bare", Img: "zero", Engine: "interpreter", Tag: "witness"})
+	pollFixed = w.res != nil && w.res.Err == ""
+	v := "asis"
+	if pollFixed {
+		v = "fixed"
+	}
+	rep.Note("finding switch F15: poll_oneoff variant tied to the code = %s", v)
+	if a := orc.Askf("c15 variant %s", v); a != "ok" {
+		hx.Fatal("oracle variant: %s", a)
+	}
+	if l, err := net.Listen("tcp", "127.0.0.1:0"); err == nil {
+		l.Close()
+		sockStateOK = true
+	} else {
+		rep.Count("state-sock:skipped-no-loopback")
+		rep.Note("descriptor-table state `sock` skipped: cannot bind a loopback port (%v)", err)
+	}
+	{
+		// finding switch F62: the first iovec buffer covers the second entry, the file's bytes are an iovec
+		w := runAlone(Case{Fn: "fd_read", Args: []uint64{6, offIovC, 2, 16576}, State: "alias", Img: "struct", Engine: "interpreter", Tag: "witness"})
+		v3 := "fixed"
+		if w.res != nil {
+			for _, d := range w.res.Diff {
+				if d.Off == 4096 {
+					v3 = "asis"
+				}
+			}
+		}
+		rep.Note("finding switch F62: readv variant tied to the code = %s", v3)
+		if a := orc.Askf("c15 variant3 %s", v3); a != "ok" {
+			hx.Fatal("oracle variant3: %s", a)
+		}
+	}
+	if sockStateOK {
+		// finding switch F61: sock_recv with RI_RECV_PEEK and ri_data_len = 0
+		w := runAlone(Case{Fn: "sock_recv", Args: []uint64{4, 0, 0, 1, 0xffc0, 0x4140}, State: "sock", Img: "struct", Engine: "interpreter", Tag: "witness"})
+		v2 := "asis"
+		if w.res != nil && w.res.Err == "" {
+			v2 = "fixed"
+			for _, d := range w.res.Diff {
+				if d.Off == 256 {
+					v2 = "asis"
+				}
+			}
+		}
+		rep.Note("finding switch F61: sock_recv variant tied to the code = %s", v2)
+		if a := orc.Askf("c15 variant2 %s", v2); a != "ok" {
+			hx.Fatal("oracle variant2: %s", a)
+		}
+	}
+}
+
 func replayCases(path string) []Case {
 	raw, err := os.ReadFile(path)
 	if err != nil {
@@ -879,15 +885,6 @@ func replayCases(path string) []Case {
 		if json.Unmarshal(b.Detail, &d) == nil && d.Input.Fn != "" {
 			cs = append(cs, d.Input)
 		}
-	}
-	if a := orc.Askf("c15 variant asis"); a != "ok" {
-		hx.Fatal("oracle variant: %s", a)
-	}
-	if a := orc.Askf("c15 variant2 asis"); a != "ok" {
-		hx.Fatal("oracle variant2: %s", a)
-	}
-	if a := orc.Askf("c15 variant3 asis"); a != "ok" {
-		hx.Fatal("oracle variant3: %s", a)
 	}
 	return cs
 }
